@@ -96,4 +96,23 @@ pub mod proofs {
         let q = sq.next();
         assert!(q == if next < 0.5 { 1.0 } else { -1.0 });
     }
+    /// step == frequency / rate as the correctly rounded f64 quotient, for representative rates that are NOT powers of
+    /// two (CBMC does not finish a symbolic f64 divisor: the rate is concrete).  The frequency ranges over every finite
+    /// non-negative f32 value widened to f64 (quick tier) / every finite non-negative f64 (thorough tier, rate 49).
+    fn step_const(rate: f64, hz: f64) {
+        kani::assume(hz >= 0.0 && hz.is_finite());
+        let mut c = signal::rate(rate).const_hz(hz);
+        assert!(c.step().to_bits() == (hz / rate).to_bits());
+    }
+    fn step_var(rate: f64, hz: f64) {
+        kani::assume(hz >= 0.0 && hz.is_finite());
+        let mut v = signal::rate(rate).hz(signal::gen(move || hz));
+        assert!(v.step().to_bits() == (hz / rate).to_bits());
+    }
+    #[kani::proof] pub fn c17_step_bits_const_49() { step_const(49.0, kani::any::<f32>() as f64) }
+    #[kani::proof] pub fn c17_step_bits_var_49() { step_var(49.0, kani::any::<f32>() as f64) }
+    #[kani::proof] pub fn c17t_step_bits_const_44100() { step_const(44100.0, kani::any::<f32>() as f64) }
+    #[kani::proof] pub fn c17t_step_bits_var_44100() { step_var(44100.0, kani::any::<f32>() as f64) }
+    #[kani::proof] pub fn c17t_step_bits_const_49() { step_const(49.0, kani::any()) }
+    #[kani::proof] pub fn c17t_step_bits_var_49() { step_var(49.0, kani::any()) }
 }
